@@ -25,7 +25,7 @@ func main() {
 	r := vk.Start("C01", "model_checking")
 	states, trans, validated := 0, 0, 0
 	var per []interface{}
-	if *part == "all" || *part == "model" {
+	if (*part == "all" || *part == "model") && r.ReplayPath == "" {
 		info := runModel(r)
 		r.Set("model", info)
 		states += info["model_states_total"].(int)
